@@ -43,6 +43,11 @@ CHECKS = {
             'For each catalogue program (core, agg, sugarbase) and each applicable documented equivalence, z3 proves short form == long form on every database with <=K rows per table; a long form rejected by the compiler is a violation.',
             'Trusted: lv/sqlsem.py, z3. Known finding KF-C11-eq-after-expression.',
             'DESIGN.md §3 C11', 'sqlsmt'),
+    'C17': ('translation_validation',
+            'histories of CLI-style runs executed by a symbolic statement interpreter (DROP/CREATE/ATTACH + SELECT) over a symbolic database file; each assertion is a z3 equivalence between stores/rows; sat models replayed on a real SQLite file',
+            'For each catalogue program with grounded intermediates and each enumerated history of <=3 runs, z3 proves for every database content within the bound: dependant rows == program without @Ground; table of P == P alone; printing P writes nothing; re-runs return the same rows and leave the same tables.',
+            'Trusted: lv/sqlsem.py statement interpreter, z3. Outside: overwrite:false, copy_to_file.',
+            'DESIGN.md §3 C17', 'sqlsmt'),
     'C18': ('translation_validation',
             'bounded symbolic evaluation of ORDER BY/LIMIT in the emitted SQL (z3) vs the first K rows of the reference multiset in the requested order, position-wise for the ordered predicate and as multisets for its consumers; sat models replayed on real SQLite',
             'For each catalogue program with an ordered/limited predicate z3 proves, for every database with <=K rows whose sort keys form a total order, that the predicate returns exactly the first K reference rows in order and that consumers read exactly those rows (so it was not inlined without its clauses).',
